@@ -833,7 +833,7 @@ class Interp:
         rs = cache.get((via, name))
         if rs is None:
             import native
-            rep = native.run_lines("unicode-ranges", [("fn:" if via == "fn" else "") + name], timeout=600)[0]
+            rep = native.run_lines("unicode-ranges", [{"fn": "fn:", "core": "core:"}.get(via, "") + name], timeout=600)[0]
             if not rep.startswith("OK"): raise Unsupported(f"unicode property {name} ({via}): {rep[:80]}")
             rs = [tuple(int(x, 16) for x in r.split("-")) for r in rep[3:].split(",") if r]
             cache[(via, name)] = rs
